@@ -100,6 +100,11 @@ def judge(text, rec, exc):
     out = []
     msg = str(exc)
     head, src, caret, sugg = parse_message(msg)
+
+    def nl_class(toks_):
+        # which KINDS of token hold a line break (the listed mechanism is about the kinds that can today)
+        kinds_ = sorted({t[0] for t in toks_ if '\n' in stripped[t[2]:t[3]]})
+        return 'newline-in-token:' + '+'.join(kinds_) if kinds_ else 'plain'
     ec = rec.error_calls[0]
     stripped = re.sub(r'[\s;]+$', '', text)
     if caret is None or not src:
@@ -116,8 +121,7 @@ def judge(text, rec, exc):
     if ec['eof']:
         toks = rec.tokens
         if n != 1 or start != len(L):
-            nl = any('\n' in stripped[t[2]:t[3]] for t in toks)
-            out.append(({'defect': 'eof-caret-not-after-last-token', 'token_class': 'newline-in-token' if nl else 'plain'},
+            out.append(({'defect': 'eof-caret-not-after-last-token', 'token_class': nl_class(toks)},
                         {'line': L, 'caret': caret}))
         lineno = toks[-1][4] if toks else 1
     else:
@@ -125,7 +129,7 @@ def judge(text, rec, exc):
         marked = L[start:start + n]
         if marked != tok_text:
             kind = 'caret-length' if L[start:start + len(tok_text)] == tok_text else 'caret-offset'
-            out.append(({'defect': kind, 'token_class': 'rewritten' if tok_text != str(ec['value']) else 'newline-in-token' if any('\n' in stripped[t[2]:t[3]] for t in rec.tokens if t[2] <= ec['index']) else 'plain'},
+            out.append(({'defect': kind, 'token_class': 'rewritten' if tok_text != str(ec['value']) else nl_class([t for t in rec.tokens if t[2] <= ec['index']])},
                         {'line': L, 'caret': caret, 'marked': marked, 'offending_token_text': tok_text, 'token_type': ec['type']}))
         lineno = ec['lineno']
     # reproduced lines vs source: the message groups tokens by the lexer's own line numbers; each shown line must consist
@@ -137,8 +141,7 @@ def judge(text, rec, exc):
     want = [''.join(''.join(groups[k]).split()) for k in linenos[-len(src):]]
     have = [''.join(l.split()) for l in src]
     if want != have:
-        nl = any('\n' in stripped[t[2]:t[3]] for t in rec.tokens if t[4] <= lineno)
-        out.append(({'defect': 'reproduced-lines-differ', 'token_class': 'newline-in-token' if nl else 'plain'},
+        out.append(({'defect': 'reproduced-lines-differ', 'token_class': nl_class([t for t in rec.tokens if t[4] <= lineno])},
                     {'expected_no_ws': want[-3:], 'shown_no_ws': have[-3:]}))
     return out, sugg
 
